@@ -124,8 +124,12 @@ impl PageCache {
         };
 
         let mut found_victim = None;
-        // Attempt to iterate over all the frames.
-        while self.cursor <= self.frames.len() && found_victim.is_none() {
+        // Attempt to iterate over all the frames, wrapping around at the end.
+        let mut scanned = 0;
+        while scanned <= self.frames.len() && found_victim.is_none() {
+            if self.cursor >= self.frames.len() {
+                self.cursor = 0;
+            }
             if let Some((pid, frame)) = self.frames.get_index(self.cursor) {
                 if frame.is_free() {
                     self.stats.eviction();
@@ -139,6 +143,7 @@ impl PageCache {
 
             // Not evictable.
             self.cursor += 1;
+            scanned += 1;
         }
 
         if found_victim.is_some() {
